@@ -412,6 +412,8 @@ func (r *RefCount[T]) resolve(ctx context.Context, waitCh, doneCh chan struct{},
 	if waitCh != nil {
 		select {
 		case <-ctx.Done():
+			// doneCh also tells the next resolver that every earlier one has returned
+			<-waitCh
 			return
 		case <-waitCh:
 		}
